@@ -1,6 +1,7 @@
 import MqttVerif.Conn.Step
 import MqttVerif.Monitors
 import MqttVerif.Alloc.Lemmas
+import MqttVerif.Conn.Lemmas.Resend
 /-!
 # Frame lemmas for the fields C12 / C13 talk about (agent P6)
 
@@ -178,6 +179,15 @@ core_fields releaseIfUsed (c : C) (id : Nat) : (releaseIfUsed c id).s ~ c.s skip
   unfold releaseIfUsed; split <;> simp
 @[simp] theorem releaseIfUsed_pubs (c : C) (id : Nat) : pubs (releaseIfUsed c id).ev = pubs c.ev := by
   unfold releaseIfUsed; split <;> simp
+
+/-- a send refused before its handler (fix 1d0ef05): an error and possibly a release -/
+theorem refuseSend_core (c : C) (e : Nat) (p : Pkt) : (refuseSend c e p).s.core = c.s.core := by
+  unfold refuseSend; split <;> simp [releaseIfUsed_core]
+core_fields refuseSend (c : C) (e : Nat) (p : Pkt) : (refuseSend c e p).s ~ c.s skip [] := refuseSend_core c e p
+@[simp] theorem refuseSend_cfg (c : C) (e : Nat) (p : Pkt) : (refuseSend c e p).cfg = c.cfg := by
+  unfold refuseSend; split <;> simp
+@[simp] theorem refuseSend_pubs (c : C) (e : Nat) (p : Pkt) : pubs (refuseSend c e p).ev = pubs c.ev := by
+  unfold refuseSend; split <;> simp
 
 theorem cancelTimers_core (c : C) : (cancelTimers c).s.core = c.s.core := by
   unfold cancelTimers; dsimp only; (repeat' split) <;> rfl
